@@ -13,9 +13,10 @@ if "--tier" in sys.argv:
     tier = sys.argv[sys.argv.index("--tier") + 1]
 seed = "/tmp/seed-%s/SEED" % ID
 store_n = n
-if "--round" in sys.argv and sys.argv[sys.argv.index("--round") + 1] == "2":
-    seed = "/tmp/seed2-%s/SEED" % ID
-    store_n = str(int(n) + 2)
+if "--round" in sys.argv:
+    rnd = int(sys.argv[sys.argv.index("--round") + 1])
+    seed = "/tmp/seed%d-%s/SEED" % (rnd, ID)
+    store_n = str(int(n) + 2 * (rnd - 1))
 env = dict(os.environ, GOFLAGS="-mod=mod", GOPROXY="off", GOSUMDB="off", GOTOOLCHAIN="local")
 def sh(cmd, cwd=None, timeout=3000, e=None):
     r = subprocess.run(cmd, shell=True, cwd=cwd, env=e or env, capture_output=True, text=True, timeout=timeout)
